@@ -30,6 +30,7 @@ steps, `apply_rule_canon` below for the rule applications), and the driver op `c
 import BB.Lemmas.Validate
 import BB.Lemmas.ValidateRule
 import BB.Lemmas.SymRule5
+import BB.Lemmas.TapeParse
 
 namespace BB
 
@@ -206,3 +207,42 @@ example : validateApp exC03Prog 0 exC03Before ⟨3, [⟨3,1⟩,⟨1,1⟩], [⟨2
   decide +kernel
 
 end BB.Sym
+
+/-! ### The input path of the validators: printed tapes are read back exactly
+
+The driver hands the tapes reported by the real code to `checkApp` / `Sym.validateApp` as the
+`Display` strings of the Rust `Tape` (`Tape.show`, BB/Model/Tape.lean: left span far-to-near,
+`[scan]`, right span near-to-far, one blank between tokens; a block is `c` for count 1, `c..` for
+count 0, `c^n` otherwise) and reads them with `Tape.parse` (BB/Model/Validate.lean).  The two are
+inverse to each other on EVERY tape: no hypothesis on colours (two and more digits included), on
+counts (0 and 1 included) or on the spans (either may be empty).  So the tape the validators judge
+is the tape that was printed.  Helper lemmas: BB/Lemmas/TapeParse.lean (technical core
+`TapeParse.parseNat_D`: `parseNat?` inverts decimal printing). -/
+
+namespace BB
+
+/-- **tape_parse_show.** Parsing the printed form of a tape gives the tape back, for EVERY tape
+    (any colours, any counts, count 0 included). -/
+theorem tape_parse_show (t : Tape) : Tape.parse t.show = some t :=
+  TapeParse.tape_parse_show' t
+
+/-- **tape_show_injective.** Hence two tapes that print alike are the same tape. -/
+theorem tape_show_injective (a b : Tape) (h : a.show = b.show) : a = b :=
+  TapeParse.tape_show_injective' a b h
+
+/-! Non-vacuity: a tape with a count-0 block (`7..`), a count-1 block (`1`), multi-digit counts
+(`3^1900`, `2^22`) and a two-digit colour (`12^5`); and the two corner tapes with empty spans. -/
+
+example : (⟨3, [⟨3, 1900⟩, ⟨1, 1⟩, ⟨7, 0⟩], [⟨2, 22⟩, ⟨12, 5⟩]⟩ : Tape).show
+    = "7.. 1 3^1900 [3] 2^22 12^5" := by decide +kernel
+example : Tape.parse "7.. 1 3^1900 [3] 2^22 12^5"
+    = some ⟨3, [⟨3, 1900⟩, ⟨1, 1⟩, ⟨7, 0⟩], [⟨2, 22⟩, ⟨12, 5⟩]⟩ := by decide +kernel
+example : Tape.parse (⟨3, [⟨3, 1900⟩, ⟨1, 1⟩, ⟨7, 0⟩], [⟨2, 22⟩, ⟨12, 5⟩]⟩ : Tape).show
+    = some ⟨3, [⟨3, 1900⟩, ⟨1, 1⟩, ⟨7, 0⟩], [⟨2, 22⟩, ⟨12, 5⟩]⟩ := tape_parse_show _
+example : Tape.parse (Tape.init 0).show = some (Tape.init 0) := tape_parse_show _
+example : (Tape.init 0).show = "[0]" := by decide +kernel
+/-- the parser is not total: what is not a printed tape is refused -/
+example : Tape.parse "1^ [0]" = none ∧ Tape.parse "1 2" = none ∧ Tape.parse "1  [0]" = none := by
+  decide +kernel
+
+end BB
